@@ -105,6 +105,17 @@ def generate(rng, tier, index):
                            rng.randint(0, 4100)])
         plain = builder.prng_bytes(rng.getrandbits(30), plen)
         stub = _stub(rng, rng.choice([0, 0, 1, 5, 100, 900, rng.randint(0, 900)]), rng.random() < 0.5, 0)
+        if rng.random() < 0.02:
+            # a view over more than 64 KiB with single reads larger than 64 KiB (and the usual small ones)
+            plen = rng.choice([65536 + 9, 70001, 131072 + 3, 140000])
+            hs = []
+            for _ in range(rng.randint(1, 3)):
+                h = _gen_history(rng, plen, maxops=6)
+                # (in front of the generated history, which assumes it starts at position 0)
+                h[0:0] = [["seek", rng.choice([0, 1, 3, 4, 5]), 0], ["read", rng.choice([65537, 65540, 70000, 100000, plen - 7])], ["tell"], ["seek", 0, 0]]
+                hs.append(h)
+            return {"mode": "direct", "plain": "", "plain_gen": [rng.getrandbits(30), plen], "nonce": hx(nonce), "stub": hx(stub), "B": rng.choice([8192, 4096, 1000]),
+                    "initial_seek": True, "default_offset_arg": False, "size_delta": 0, "histories": hs}
         return {"mode": "direct", "plain": hx(plain), "nonce": hx(nonce), "stub": hx(stub), "B": B,
                 # how the view is obtained and used: the constructor (default nonce_offset when there is no stub) and
                 # whether the caller seeks before the first operation or relies on the initial position 0
@@ -352,6 +363,10 @@ def execute(plan: dict) -> Result:
                 hist = [h for h in hist if _valid(h, len(plain))]
             else:
                 plain, nonce, stub = unhx(plan["plain"]), unhx(plan["nonce"]), unhx(plan["stub"])
+                if plan.get("plain_gen"):
+                    # a plaintext of more than 64 KiB, described by (seed, length)
+                    plain = builder.prng_bytes(plan["plain_gen"][0], plan["plain_gen"][1])
+                    res.probes["plaintext_over_64k"] += 1
                 hist = plan["histories"]
             delta = plan.get("size_delta", 0) if mode == "direct" else 0
             raw, no = builder.xorencode(plain, nonce, stub, size_consistent=not delta, size_delta=delta)
